@@ -1,19 +1,19 @@
 /-
 Property C07 — rewrite operations produce exactly the documented edit.
 
-All theorems are about the definitions executed by lane `edit` (`LolHtml.Model.{Mutations,TokenEdit,
+All theorems are about the definitions executed by lane `edit` (`LolHtml.EditModel.{Mutations,TokenEdit,
 ElementOps,EditDoc}`), for *every* operation script (a list of API calls of any length), every token,
 and every sink function `enc : ContentType → Bytes → Bytes` (escaping + encoding is abstract).
 -/
 import LolHtml.Lemmas.Edit
 import LolHtml.Lemmas.EditDoc
-import LolHtml.Lemmas.ElementOps
-import LolHtml.Lemmas.Attrs
+import LolHtml.Lemmas.EditElementOps
+import LolHtml.Lemmas.EditAttrs
 import LolHtml.Spec.EditDoc
-import LolHtml.Lemmas.Refine
+import LolHtml.Lemmas.EditRefine
 
 namespace LolHtml.Thm.C07
-open LolHtml LolHtml.Model LolHtml.Spec.Edit LolHtml.Lemmas.Edit
+open LolHtml LolHtml.EditModel LolHtml.Spec.Edit LolHtml.Lemmas.Edit
 
 /-! ## C07_token_edit — serialisation of an edited token = the documented edit
 
@@ -116,7 +116,7 @@ theorem C07_token_edit (enc : Enc) (tok : Token) (hfresh : Token.fresh tok) (ops
     | nil => simp [edit, befores, afters, dropped, encodeDyn]
     | cons o os =>
       have hl : lastReplacement ((o :: os).map fun _ => MutOp.remove) = none := by
-        apply LolHtml.Lemmas.ElementOps.lastReplacement_none_of
+        apply LolHtml.Lemmas.EditElementOps.lastReplacement_none_of
         intro op hop c
         obtain ⟨_, _, rfl⟩ := List.mem_map.mp hop
         simp
@@ -147,7 +147,7 @@ tag after the script). An attribute is *touched* if some call with an acceptable
 (ASCII case-insensitively). -/
 
 section Attrs
-open LolHtml.Lemmas.Attrs
+open LolHtml.Lemmas.EditAttrs
 
 /-- The attribute list of a start tag after a script is the attribute operations applied in order. -/
 theorem C07_attrs_of_startTag (t : StartTag) (ops : List StartTagOp) :
@@ -286,7 +286,7 @@ For every script on a fresh element:
   hence, by `C07_token_edit_endTag`, `appended ++ (end tag | ε) ++ after`;
 * an element that cannot have content defers nothing. -/
 
-open LolHtml.Lemmas.ElementOps in
+open LolHtml.Lemmas.EditElementOps in
 theorem C07_element_ops (enc : Enc) (st : StartTag) (hfresh : st.mutations = {}) (chc : Bool)
     (ops : List ElementOp) :
     let el := (Element.new st chc).applyOps ops
@@ -331,7 +331,7 @@ theorem C07_element_end_region (enc : Enc) (E : ElemEdit) (hu : E.endHandlers = 
                | some n => [60, 47] ++ n ++ [62]
                | none => raw))
         ++ encodeDyn enc E.after := by
-  open LolHtml.Lemmas.ElementOps in
+  open LolHtml.Lemmas.EditElementOps in
   rw [C07_token_edit_endTag]
   have hm : endMutOps E.endTagScript
       = E.append.map MutOp.before ++ E.after.reverse.map MutOp.after ++ (if E.endDropped then [MutOp.remove] else []) := by
@@ -374,7 +374,7 @@ example :
       [.prepend (.buffer [112] .html), .append (.buffer [113] .html), .after (.buffer [122] .html),
        .setTagName [98], .before (.buffer [120] .html)]
     el.startTag.intoBytes encUtf8 = [120, 60, 98, 62, 112]
-      ∧ (LolHtml.Lemmas.ElementOps.endTagAfter el { name := [97], raw := [60, 47, 97, 62] }).intoBytes encUtf8
+      ∧ (LolHtml.Lemmas.EditElementOps.endTagAfter el { name := [97], raw := [60, 47, 97, 62] }).intoBytes encUtf8
           = [113, 60, 47, 98, 62, 122] := by decide
 
 /-- Non-vacuity: on a void element (`chc = false`) `prepend`/`append`/`set_inner_content` are no-ops
@@ -537,7 +537,7 @@ theorem C07_output_eq_edit_spec (H : List Handler) (enc : Enc) (toks : List SrcT
     (hn : Spec.EditDoc.cleanRun H enc {} toks = true) :
     (rewrite H enc toks).2 = Spec.EditDoc.rewrite H enc toks
       ∧ (rewrite H enc toks).1.fault = false ∧ (rewrite H enc toks).1.faultRemoved = false :=
-  LolHtml.Lemmas.Refine.rewrite_refines H enc toks hn
+  LolHtml.Lemmas.EditRefine.rewrite_refines H enc toks hn
 
 theorem C07_output_eq_edit_spec_holds : C07_output_eq_edit_spec_statement :=
   fun H enc toks hn => (C07_output_eq_edit_spec H enc toks hn).1
